@@ -1028,9 +1028,13 @@ def check_functions(run, lst, ob):
             continue
         fu = next(u for u in fb if name_of[u] == nme)
         exp = sorted(exp_entries.get(nme, []))
-        # a retained zero-sized block (documented) may stay an entry
+        opt = expected_entries.optional.get(nme, set())
+        # a retained zero-sized block (documented) may stay an entry;
+        # promotion across a data block deleted in the same rewrite is
+        # accepted either way
         got = sorted(p for p, b in ((ob.blockpos(b), b) for b in fe[fu])
-                     if p is not None and (b.size or p in exp))
+                     if p is not None and (b.size or p in exp)
+                     and p not in opt)
         ctr["entries_compared"] += 1
         if got != exp:
             viol.append({
@@ -1068,21 +1072,35 @@ def expected_entries(case, lst):
             bpos[t.bid] = (si, t.pos)
     fn_of = {b: f["name"] for f in case.get("funcs", []) for b in f["blocks"]}
     res = {}
+    optional = {}
     for f in case.get("funcs", []):
         out = set()
+        opt = set()
         for b in f["entries"]:
             cur = b
+            skipped_data = False
             while True:
                 if cur in lst.proxy_deleted:
                     break
                 if cur not in lst.deleted_blocks:
-                    out.add(bpos[cur])
+                    (opt if skipped_data else out).add(bpos[cur])
                     break
                 si, k = order[cur]
                 nb = seq.get((si, k + 1))
+                # a data block deleted in the same rewrite is no longer
+                # between the entry and the following code: promotion across
+                # it is accepted either way
+                while nb is not None and not nb["code"] and (
+                        nb["id"] in lst.deleted_blocks or
+                        nb["id"] in lst.proxy_deleted):
+                    skipped_data = True
+                    k += 1
+                    nb = seq.get((si, k + 1))
                 if nb is None or not nb["code"] or \
                         fn_of.get(nb["id"]) != f["name"]:
                     break
                 cur = nb["id"]
         res[f["name"]] = sorted(out)
+        optional[f["name"]] = opt
+    expected_entries.optional = optional
     return res
